@@ -134,7 +134,8 @@ def create_tree_using_stacks(g: Grammar, r: ListWrapper, failures_limit=100):
                     elif is_metahandler(argt):
                         metahandler = get_args(argt)[1]
                         base_type = get_generic_parameter(argt)
-                        index = find_element_that_meets_mh(stacks[base_type], metahandler)
+                        # a base type nobody has pushed yet (not a key of `stacks`) is an empty stack, not an error
+                        index = find_element_that_meets_mh(stacks.get(base_type, []), metahandler)
                         arg = stacks[base_type].pop(index)
                     else:
                         raise IndexError()
